@@ -17,10 +17,57 @@ KEYS_CORE = ["C", "?"]
 KEYS_DEC = ["C", "N", "O+1", "?"]
 
 
+FORCE_PLAIN = False   # set by probe_mtok when the decoder under test does not treat token lists like strings
+
+PROBES = ["[C][=C][#N]", "[C][nop][O].[N][F]", "[C][Branch1][C][O][N].[C]", "[nop].[C][nop]", "[C][C][C][Ring1][Ring1].[O][nop][Ring1]",
+          "[Cexpl][Branch1_2][C][=Oexpl].[Na+expl]", "[C].[C][N+expl][Branch1_1][C][C][C]", ".[C]", "[C].", "[C]..[C]", "",
+          "[C][epsilon][C].[Ring1][C]", "[S][=Branch1][C][=O][=Branch1][C][=O][O-1].[Na+1]", "[C][nop][Ring1][nop][C][C]",
+          "[Foo].[C]", "[C].[Foo]", "[C][Expl=Ring1][C].[C]"]
+
+
+def probe_mtok(ctx):
+    """pre-flight fidelity probe of the M-TOK input model: the instrumented decoder must return the same thing for a
+    token-list input (TokStr of plain symbols) and for the plain string, with every flag combination.  If it does not
+    (the decoder handles its input in a way the token-list model does not imitate), all decoder calls of this run
+    pin the symbols and use plain strings instead (enumeration over the alphabet: slower, same meaning)."""
+    global FORCE_PLAIN
+    import re
+    FORCE_PLAIN = False
+    for x in PROBES:
+        toks = re.findall(r"\[[^\[\]]*\]|\.", x)
+        if "".join(toks) != x:
+            continue
+        for comp in (False, True):
+            for attr in (False, True):
+                ctx.reset()
+                a = _raw_decode(ctx, TokStr(toks), comp, attr)
+                ctx.reset()
+                b = _raw_decode(ctx, x, comp, attr)
+                if repr(a) != repr(b):
+                    FORCE_PLAIN = True
+                    ctx.reset()
+                    return {"faithful": False, "probe": x, "token_list": repr(a)[:160], "string": repr(b)[:160]}
+    ctx.reset()
+    return {"faithful": True, "probes": len(PROBES) * 4}
+
+
+def _raw_decode(ctx, x, compatible, attribute):
+    try:
+        with warnings.catch_warnings():
+            warnings.simplefilter("ignore")
+            return ("ok", ctx.dec.decoder(x, compatible=compatible, attribute=attribute))
+    except ctx.exc.DecoderError:
+        return ("DecoderError",)
+    except Exception as ex:  # noqa
+        return ("exc", type(ex).__name__)
+
+
 def run_decoder(ctx, x, compatible=False, attribute=False):
     """call the real selfies.decoder on a TokStr / SymStr / str.
     returns ('ok', result) | ('DecoderError', ex) | ('exc', ex)"""
     DecoderError = ctx.exc.DecoderError
+    if FORCE_PLAIN and isinstance(x, TokStr):
+        x = x.as_plain_str()
     try:
         with warnings.catch_warnings():
             warnings.simplefilter("ignore")
